@@ -191,9 +191,11 @@ def optionals(tree):
 
 
 def ddump(node):
-    """ast.dump-like structure dump (contexts and all fields kept) in which the whitespace after newlines inside
-    DOCSTRINGS is neutralised: pfst documents that docstrings are re-indented with their block (option `docstr`), so a
-    statement edit that re-indents a block (elif <-> else/if conversion) changes that whitespace and nothing else."""
+    """ast.dump-like structure dump (contexts and all fields kept) in which the indentation-dependent whitespace of
+    DOCSTRING-like strings (every string that is an expression statement: pfst's default `docstr=True`) is neutralised:
+    whitespace after a newline and runs of blanks (continuation lines after a backslash-newline inside the quotes).
+    pfst documents that such strings are re-indented with their block, so a statement edit that re-indents a block
+    (elif <-> else/if conversion, moving a statement to another depth) changes that whitespace and nothing else."""
     import re
     out = []
 
@@ -203,16 +205,7 @@ def ddump(node):
             for f in n._fields:
                 v = getattr(n, f, None)
                 out.append(f + '=')
-                if f == 'body' and isinstance(n, (ast.FunctionDef, ast.AsyncFunctionDef, ast.ClassDef, ast.Module)) and isinstance(v, list) \
-                        and v and isinstance(v[0], ast.Expr) and isinstance(v[0].value, ast.Constant) and isinstance(v[0].value.value, str):
-                    out.append('[')
-                    rec(v[0], True)
-                    for x in v[1:]:
-                        out.append(', ')
-                        rec(x)
-                    out.append(']')
-                else:
-                    rec(v, doc and f == 'value')
+                rec(v, f == 'value' and (doc or (isinstance(n, ast.Expr) and isinstance(v, ast.Constant) and isinstance(v.value, str))))
                 out.append(', ')
             out.append(')')
         elif isinstance(n, list):
@@ -222,7 +215,7 @@ def ddump(node):
                 out.append(', ')
             out.append(']')
         elif doc and isinstance(n, str):
-            out.append(repr(re.sub(r'\n[ \t]*', '\n', n)))
+            out.append(repr(re.sub(r'[ \t]{2,}', ' ', re.sub(r'\n[ \t]*', '\n', n))))
         else:
             out.append(repr(n))
     rec(node)
